@@ -318,7 +318,7 @@ def run(ctx):
     ctx.extra['skipped_inputs'] = len(skipped)
     ctx.extra['skipped_examples'] = [x[1:] for x in skipped[:5]]
     kinds = ctx.__dict__.get('_c14_kinds', set())
-    allk = {n for n, c in vars(ast).items() if isinstance(c, type) and issubclass(c, ast.AST) and not c.__subclasses__()
+    allk = {n for n, c in vars(ast).items() if isinstance(c, type) and issubclass(c, ast.AST) and not c.__subclasses__() and n[:1] != '_'
             and c.__module__ in ('ast', '_ast')}
     never = {'AugLoad', 'AugStore', 'Param', 'Suite', 'ExtSlice', 'Index', 'TypeIgnore', 'FunctionType'}  # not produced by ast.parse(src) in 3.12
     ctx.extra['node_kinds_covered'] = len(kinds)
